@@ -29,7 +29,7 @@ META = {
                   "unstable set with several elements is selected (under A1 every member is a true Floquet direction; with "
                   "floating-point eigenvalues the numerically split trivial multiplier can leak into the sets - only the "
                   "thorough tier's BOUNDED native witness, one Earth-Moon L1 halo against scipy DOP853, sees that). The directed "
-                  "field handed to the integrators is the obligation shared with C10.",
+                  "field handed to the integrators is the obligation shared with C10. Manifold.compute (facade) forwards every configured value, energy_tol and safe_distance included.",
     "technique": "recorded-callee wiring contracts on the real service methods + sympy identities + z3 path VCs",
 }
 
